@@ -19,3 +19,14 @@ for r in rows:
     st = r.split("|")[3].strip()
     c[st] = c.get(st, 0) + 1
 print("\nTotals: " + ", ".join("%s %d" % kv for kv in sorted(c.items())))
+fr = {}
+for d in sorted(os.listdir(os.path.join(V, "seeded"))):
+    m = os.path.join(V, "seeded", d, "meta.json")
+    if os.path.exists(m):
+        f = json.load(open(m)).get("first_run")
+        if f:
+            k = f.split(" (")[0]
+            fr[k] = fr.get(k, 0) + 1
+if fr:
+    print("\nLater rounds, first run against the checks as they stood BEFORE the change had been looked at: "
+          + ", ".join("%s %d" % kv for kv in sorted(fr.items())))
